@@ -52,6 +52,12 @@ fn replay_doc(args: &[String]) {
     for line in text.lines().filter(|l| !l.trim().is_empty()) {
         let beh: J = serde_json::from_str(line).expect("behaviour json");
         nb += 1;
+        if std::env::var("AMV_LOUD").is_ok() {
+            let _ = std::fs::write("/var/tmp/amv-current-behaviour.json", line);
+        }
+        // progress marker: lets the orchestrator find the behaviour that made the process abort
+        // (a panic inside a destructor while another panic unwinds cannot be caught)
+        let _ = std::fs::write(format!("{}.progress", &args[3]), format!("{}", nb - 1));
         let mut reps: BTreeMap<i64, Automerge> = BTreeMap::new();
         for k in 1..=3i64 {
             reps.insert(k, Automerge::new().with_actor(enc::actor_from_num(k as u8)));
@@ -130,6 +136,22 @@ fn replay_doc(args: &[String]) {
                 if let Some(s) = step.get("merge").and_then(|m| m.as_i64()) {
                     let mut other = reps[&s].clone();
                     res = match reps.get_mut(&r).unwrap().merge(&mut other) { Ok(_) => "ok".to_string(), Err(e) => calls::err_name(&e) };
+                } else if step.get("rolledback").is_some() {
+                    // a (possibly isolated) transaction of one call that is rolled back
+                    let heads: Vec<automerge::ChangeHash> = step["iso"].as_array().map(|a| a.iter()
+                        .filter_map(|h| chash.get(&(h[0].as_i64().unwrap_or(0), h[1].as_i64().unwrap_or(0))).copied()).collect()).unwrap_or_default();
+                    let d = reps.get_mut(&r).unwrap();
+                    let before_save = d.save();
+                    {
+                        let mut tx = if heads.is_empty() {
+                            d.transaction()
+                        } else {
+                            d.transaction_at(automerge::PatchLog::inactive(), &heads).expect("patch log")
+                        };
+                        let _ = calls::exec(&mut tx, &step["call"]);
+                        tx.rollback();
+                    }
+                    res = if d.save() == before_save { "any".to_string() } else { "saved-bytes-changed".to_string() };
                 } else {
                     let d = reps.get_mut(&r).unwrap();
                     let mut tx = d.transaction();
@@ -150,7 +172,7 @@ fn replay_doc(args: &[String]) {
             match res {
                 Ok((res, view)) => {
                     let mut bad = vec![];
-                    let rc = if res == "ok" { "ok" } else { "err" };
+                    let rc = if res == "ok" { "ok" } else if res == "any" { "any" } else { "err" };
                     if rc != step["res"].as_str().unwrap_or("") {
                         bad.push("res".to_string());
                     }
